@@ -188,7 +188,17 @@ func checkAsyncValidation(c *Ctx, p *Program, fn *ssa.Function) {
 			if iff, ok := b.Instrs[len(b.Instrs)-1].(*ssa.If); ok {
 				a := atomOf(iff.Cond)
 				if a.Kind == "cmp" {
+					readsCell := false
 					if ld, ok := a.X.(*ssa.UnOp); ok && ld.X == cell {
+						readsCell = true
+					}
+					// atomic.LoadUint64(&cell) / cell.Load() (atomic.Uint64)
+					if lc, ok := stripConv(a.X).(*ssa.Call); ok && !lc.Call.IsInvoke() && len(lc.Call.Args) >= 1 && lc.Call.Args[0] == cell {
+						if cl := calleeOf(&lc.Call); cl.Pkg == "sync/atomic" && strings.HasPrefix(cl.Name, "Load") {
+							readsCell = true
+						}
+					}
+					if readsCell {
 						if k, ok := constInt(a.Y); ok && k == 0 {
 							for ei := 0; ei < 2; ei++ {
 								op := a.Op
